@@ -1,6 +1,537 @@
-//! C14 — not implemented yet.
-use crate::ctx::Ctx;
+//! C14 — reservoir sampling: right size, real elements only, reproducible, mode-stable.
+//!
+//! Requests
+//!   `RESERVOIR <k> <seed> <values> <sizes> <tree…>`  → `OK <sample>`
+//!       the REAL `PriorityReservoir` driven directly: `values` cut into leaves of the given `sizes`,
+//!       each leaf `L<i>` = `create` + `add_input…`, `B<i>` = `build_from_group`, `N a b` = `merge(a, b)`,
+//!       then `finish`.
+//!   `SAMPLEPIPE <gvec|gflat|kvec|kflat> <k> <seed> <parts> <rows>` → `seq=<out> p<n>=<out> …`
+//!       the four REAL entry points (`sample_reservoir_vec`, `sample_reservoir`,
+//!       `sample_values_reservoir_vec`, `sample_values_reservoir`) collected with `collect_seq` and with
+//!       `collect_par(None, Some(n))` for every listed partition count. Keyed outputs are stably sorted by key
+//!       (hash order is not part of the answer); the order inside a sample IS part of the answer.
+//! The model must reproduce every sample exactly (elements and order).
+//!
+//! Oracle (does not go through the model): size = min(k, n) (per key: min(k, n_key), every key present once),
+//! sub-multiset of the input (per key), same-mode reproducibility (every run is executed twice), and the
+//! documented stability: the sequential sample equals the sample of every partition count.
+
+use crate::ctx::{Ctx, guarded};
+use ironbeam::collection::LiftableCombiner;
+use ironbeam::combiners::PriorityReservoir;
+use ironbeam::{CombineFn, Pipeline, from_vec};
+use std::collections::BTreeMap;
+
+/* ------------------------------------------------------------------ encoding */
+
+fn enc_ints(a: &[i64], sep: &str) -> String {
+    if a.is_empty() { "-".into() } else { a.iter().map(|x| x.to_string()).collect::<Vec<_>>().join(sep) }
+}
+fn enc_usizes(a: &[usize]) -> String {
+    if a.is_empty() { "-".into() } else { a.iter().map(|x| x.to_string()).collect::<Vec<_>>().join(",") }
+}
+fn enc_pairs(a: &[(i64, i64)]) -> String {
+    if a.is_empty() { "-".into() } else { a.iter().map(|(k, v)| format!("{k}:{v}")).collect::<Vec<_>>().join(",") }
+}
+fn enc_groups(a: &[(i64, Vec<i64>)]) -> String {
+    if a.is_empty() {
+        "-".into()
+    } else {
+        a.iter()
+            .map(|(k, vs)| format!("{k}:{}", vs.iter().map(|x| x.to_string()).collect::<Vec<_>>().join(".")))
+            .collect::<Vec<_>>()
+            .join(",")
+    }
+}
+
+/* ------------------------------------------------------------------ reference facts */
+
+fn counts(a: &[i64]) -> BTreeMap<i64, usize> {
+    let mut m = BTreeMap::new();
+    for x in a { *m.entry(*x).or_insert(0) += 1; }
+    m
+}
+/// every element of `s` occurs in `s` at most as often as in `input`
+fn sub_multiset(s: &[i64], input: &[i64]) -> bool {
+    let ci = counts(input);
+    counts(s).iter().all(|(x, c)| ci.get(x).copied().unwrap_or(0) >= *c)
+}
+fn same_multiset(a: &[i64], b: &[i64]) -> bool { counts(a) == counts(b) }
+
+/* ------------------------------------------------------------------ the combiner driven directly */
+
+#[derive(Clone, Debug)]
+enum Shape {
+    Leaf(usize, bool),
+    Node(Box<Shape>, Box<Shape>),
+}
+impl Shape {
+    fn enc(&self, out: &mut Vec<String>) {
+        match self {
+            Shape::Leaf(i, lifted) => out.push(format!("{}{i}", if *lifted { "B" } else { "L" })),
+            Shape::Node(l, r) => {
+                out.push("N".into());
+                l.enc(out);
+                r.enc(out);
+            }
+        }
+    }
+    fn leaves(&self, out: &mut Vec<usize>) {
+        match self {
+            Shape::Leaf(i, _) => out.push(*i),
+            Shape::Node(l, r) => { l.leaves(out); r.leaves(out); }
+        }
+    }
+}
+
+fn eval_shape<C, A>(c: &C, parts: &[Vec<i64>], sh: &Shape) -> A
+where
+    C: CombineFn<i64, A, Vec<i64>> + LiftableCombiner<i64, A, Vec<i64>>,
+{
+    match sh {
+        Shape::Leaf(i, lifted) => {
+            if *lifted {
+                c.build_from_group(&parts[*i])
+            } else {
+                let mut acc = c.create();
+                for v in &parts[*i] { c.add_input(&mut acc, *v); }
+                acc
+            }
+        }
+        Shape::Node(l, r) => {
+            let mut a = eval_shape(c, parts, l);
+            let b = eval_shape(c, parts, r);
+            c.merge(&mut a, b);
+            a
+        }
+    }
+}
+
+fn real_reservoir(k: usize, seed: u64, parts: &[Vec<i64>], sh: &Shape) -> Result<Vec<i64>, String> {
+    guarded(|| {
+        let c = PriorityReservoir::<i64>::new(k, seed);
+        let acc = eval_shape(&c, parts, sh);
+        c.finish(acc)
+    })
+}
+
+fn one_reservoir(cx: &mut Ctx, k: usize, seed: u64, parts: &[Vec<i64>], sh: &Shape) {
+    let vals: Vec<i64> = parts.iter().flatten().copied().collect();
+    let sizes: Vec<usize> = parts.iter().map(Vec::len).collect();
+    let mut toks = vec![];
+    sh.enc(&mut toks);
+    let req = format!("RESERVOIR {k} {seed} {} {} {}", enc_ints(&vals, ","), enc_usizes(&sizes), toks.join(" "));
+    let r1 = real_reservoir(k, seed, parts, sh);
+    let r2 = real_reservoir(k, seed, parts, sh);
+    let ans = match &r1 { Ok(s) => format!("OK {}", enc_ints(s, ",")), Err(_) => "PANIC".to_string() };
+    // the leaves actually used by the tree (each exactly once in generated cases)
+    let mut used = vec![];
+    sh.leaves(&mut used);
+    let input: Vec<i64> = used.iter().flat_map(|i| parts[*i].iter().copied()).collect();
+    let n = input.len();
+    let i = cx.case(req, ans, n >= 2 && k >= 1 && used.len() >= 2);
+    cx.count(&format!("reservoir:leaves:{}", match used.len() { 1 => "1", 2 => "2", 3 => "3", _ => "4+" }));
+    cx.count(&format!("reservoir:{}", k_class(k, n)));
+    match (&r1, &r2) {
+        (Ok(s), Ok(s2)) => {
+            if s.len() != k.min(n) {
+                cx.oracle_fail(i, "sample-wrong-size", format!("combiner: len {} but min(k={k}, n={n}) = {}", s.len(), k.min(n)));
+            }
+            if !sub_multiset(s, &input) {
+                cx.oracle_fail(i, "sample-not-submultiset", format!("combiner: sample {s:?} is not a sub-multiset of {input:?}"));
+            }
+            if s != s2 {
+                cx.oracle_fail(i, "sample-not-reproducible", format!("combiner: {s:?} then {s2:?}"));
+            }
+        }
+        _ => cx.oracle_fail(i, "sample-panics", "combiner panicked".to_string()),
+    }
+}
+
+fn k_class(k: usize, n: usize) -> &'static str {
+    if k == 0 { "k=0" } else if k == 1 && n > 1 { "k=1" } else if k < n { "1<k<n" } else if k == n { "k=n" } else { "k>n" }
+}
+
+/* ------------------------------------------------------------------ the four pipeline entry points */
+
+#[derive(Clone, Copy, PartialEq, Eq, Debug)]
+enum Entry { GVec, GFlat, KVec, KFlat }
+impl Entry {
+    fn name(self) -> &'static str {
+        match self { Entry::GVec => "gvec", Entry::GFlat => "gflat", Entry::KVec => "kvec", Entry::KFlat => "kflat" }
+    }
+    fn keyed(self) -> bool { matches!(self, Entry::KVec | Entry::KFlat) }
+}
+const ENTRIES: [Entry; 4] = [Entry::GVec, Entry::GFlat, Entry::KVec, Entry::KFlat];
+
+/// canonical real output of one run
+#[derive(Clone, PartialEq, Eq, Debug)]
+enum Out {
+    GVec(Vec<Vec<i64>>),
+    GFlat(Vec<i64>),
+    KVec(Vec<(i64, Vec<i64>)>),
+    KFlat(Vec<(i64, i64)>),
+    Fail(String),
+}
+impl Out {
+    fn enc(&self) -> String {
+        match self {
+            // exactly one row is expected; any other row count is made visible
+            Out::GVec(rows) => {
+                if rows.len() == 1 { enc_ints(&rows[0], ",") } else { format!("ROWS{}", rows.len()) }
+            }
+            Out::GFlat(v) => enc_ints(v, ","),
+            Out::KVec(rows) => enc_groups(rows),
+            Out::KFlat(rows) => enc_pairs(rows),
+            Out::Fail(s) => s.clone(),
+        }
+    }
+    /// per-key view: key -> sample in order (global entry points use the single key 0)
+    fn per_key(&self) -> Option<Vec<(i64, Vec<i64>)>> {
+        match self {
+            Out::GVec(rows) => if rows.len() == 1 { Some(vec![(0, rows[0].clone())]) } else { None },
+            Out::GFlat(v) => Some(vec![(0, v.clone())]),
+            Out::KVec(rows) => Some(rows.clone()),
+            Out::KFlat(rows) => {
+                let mut out: Vec<(i64, Vec<i64>)> = vec![];
+                for (k, v) in rows {
+                    match out.last_mut() {
+                        Some((lk, vs)) if lk == k => vs.push(*v),
+                        _ => out.push((*k, vec![*v])),
+                    }
+                }
+                Some(out)
+            }
+            Out::Fail(_) => None,
+        }
+    }
+}
+
+fn run_entry(e: Entry, k: usize, seed: u64, mode: Option<usize>, xs: &[i64], rows: &[(i64, i64)]) -> Out {
+    let r = guarded(|| -> anyhow::Result<Out> {
+        let p = Pipeline::default();
+        Ok(match e {
+            Entry::GVec => {
+                let c = from_vec(&p, xs.to_vec()).sample_reservoir_vec(k, seed);
+                Out::GVec(match mode { None => c.collect_seq()?, Some(n) => c.collect_par(None, Some(n))? })
+            }
+            Entry::GFlat => {
+                let c = from_vec(&p, xs.to_vec()).sample_reservoir(k, seed);
+                Out::GFlat(match mode { None => c.collect_seq()?, Some(n) => c.collect_par(None, Some(n))? })
+            }
+            Entry::KVec => {
+                let c = from_vec(&p, rows.to_vec()).sample_values_reservoir_vec(k, seed);
+                let mut v = match mode { None => c.collect_seq()?, Some(n) => c.collect_par(None, Some(n))? };
+                v.sort_by_key(|r| r.0);
+                Out::KVec(v)
+            }
+            Entry::KFlat => {
+                let c = from_vec(&p, rows.to_vec()).sample_values_reservoir(k, seed);
+                let mut v = match mode { None => c.collect_seq()?, Some(n) => c.collect_par(None, Some(n))? };
+                v.sort_by_key(|r| r.0); // stable: the order inside each key's sample is kept
+                Out::KFlat(v)
+            }
+        })
+    });
+    match r {
+        Ok(Ok(o)) => o,
+        Ok(Err(_)) => Out::Fail("ERR".into()),
+        Err(_) => Out::Fail("PANIC".into()),
+    }
+}
+
+/// the property's statement about ONE run's output, evaluated on the real output only
+fn check_one(cx: &mut Ctx, i: usize, e: Entry, k: usize, label: &str, out: &Out, xs: &[i64], rows: &[(i64, i64)]) {
+    let Some(per_key) = out.per_key() else {
+        let sig = if matches!(out, Out::Fail(_)) { "sample-run-fails" } else { "global-sample-not-one-row" };
+        cx.oracle_fail(i, sig, format!("{} {label}: {}", e.name(), out.enc()));
+        return;
+    };
+    // expected keys and their values
+    let mut groups: BTreeMap<i64, Vec<i64>> = BTreeMap::new();
+    if e.keyed() {
+        for (kk, v) in rows { groups.entry(*kk).or_default().push(*v); }
+    } else {
+        groups.insert(0, xs.to_vec());
+    }
+    // keys: the vec form lists every key exactly once (also when its sample is empty); the flattened
+    // form can only show keys with a non-empty sample
+    let got_keys: Vec<i64> = per_key.iter().map(|r| r.0).collect();
+    let mut dedup = got_keys.clone();
+    dedup.dedup();
+    if dedup.len() != got_keys.len() || got_keys.iter().any(|kk| !groups.contains_key(kk)) {
+        cx.oracle_fail(i, "keyed-sample-wrong-keys", format!("{} {label}: keys {got_keys:?} vs input keys {:?}", e.name(), groups.keys().collect::<Vec<_>>()));
+        return;
+    }
+    for (kk, vals) in &groups {
+        let want = k.min(vals.len());
+        let got: &[i64] = per_key.iter().find(|r| r.0 == *kk).map(|r| r.1.as_slice()).unwrap_or(&[]);
+        let listed = per_key.iter().any(|r| r.0 == *kk);
+        if e == Entry::KVec && !listed {
+            cx.oracle_fail(i, "keyed-sample-wrong-keys", format!("kvec {label}: key {kk} missing"));
+        }
+        if got.len() != want {
+            cx.oracle_fail(i, "sample-wrong-size", format!("{} {label} key {kk}: len {} but min(k={k}, n={}) = {want}", e.name(), got.len(), vals.len()));
+        }
+        if !sub_multiset(got, vals) {
+            cx.oracle_fail(i, "sample-not-submultiset", format!("{} {label} key {kk}: {got:?} not a sub-multiset of {vals:?}", e.name()));
+        }
+    }
+}
+
+fn one_pipe(cx: &mut Ctx, e: Entry, k: usize, seed: u64, parts: &[usize], xs: &[i64], rows: &[(i64, i64)]) {
+    let n = if e.keyed() { rows.len() } else { xs.len() };
+    let data = if e.keyed() { enc_pairs(rows) } else { enc_ints(xs, ",") };
+    let req = format!("SAMPLEPIPE {} {k} {seed} {} {data}", e.name(), enc_usizes(parts));
+    let mut labels: Vec<String> = vec!["seq".into()];
+    let mut modes: Vec<Option<usize>> = vec![None];
+    for p in parts { labels.push(format!("p{p}")); modes.push(Some(*p)); }
+    let outs: Vec<Out> = modes.iter().map(|m| run_entry(e, k, seed, *m, xs, rows)).collect();
+    let again: Vec<Out> = modes.iter().map(|m| run_entry(e, k, seed, *m, xs, rows)).collect();
+    let ans = labels.iter().zip(&outs).map(|(l, o)| format!("{l}={}", o.enc())).collect::<Vec<_>>().join(" ");
+    let i = cx.case(req, ans, n >= 2 && k >= 1 && !parts.is_empty());
+    cx.count(&format!("pipe:{}", e.name()));
+    cx.count(&format!("pipe:{}", k_class(k, n)));
+    cx.count(&format!("pipe:n:{}", match n { 0 => "0", 1 => "1", 2..=4 => "2-4", 5..=15 => "5-15", 16..=40 => "16-40", _ => "41+" }));
+    for (j, o) in outs.iter().enumerate() {
+        check_one(cx, i, e, k, &labels[j], o, xs, rows);
+        if *o != again[j] {
+            cx.oracle_fail(i, "sample-not-reproducible", format!("{} {}: {} then {}", e.name(), labels[j], o.enc(), again[j].enc()));
+        }
+    }
+    // evidence only (Lean: samplePar_singleton_partitions): with partitions >= n the global sample is the last k inputs
+    if !e.keyed() {
+        for (j, m) in modes.iter().enumerate() {
+            if let Some(p) = m {
+                if *p >= n {
+                    let last_k: Vec<i64> = xs[n - k.min(n)..].to_vec();
+                    let same = outs[j].per_key().map(|pk| pk.len() == 1 && pk[0].1 == last_k).unwrap_or(false);
+                    cx.count(if same { "pipe:parts>=n:sample=last-k" } else { "pipe:parts>=n:sample!=last-k" });
+                }
+            }
+        }
+    }
+    // documented: identical for sequential and parallel execution and for every partitioning
+    // (report the first differing partition count only)
+    let seq_pk = outs[0].per_key();
+    for j in 1..outs.len() {
+        if outs[j] == outs[0] { continue; }
+        let same_elems = match (&seq_pk, outs[j].per_key()) {
+            (Some(a), Some(b)) => {
+                a.len() == b.len() && a.iter().zip(b.iter()).all(|(x, y)| x.0 == y.0 && same_multiset(&x.1, &y.1))
+            }
+            _ => false,
+        };
+        let sig = if same_elems { "sample-order-differs-between-seq-and-par" } else { "sample-differs-between-seq-and-par" };
+        cx.oracle_fail(i, sig, format!("{} k={k} seed={seed}: seq {} but {} {}", e.name(), outs[0].enc(), labels[j], outs[j].enc()));
+        cx.count("pipe:seq!=par");
+        break;
+    }
+}
+
+/* ------------------------------------------------------------------ generators */
+
+fn gen_values(cx: &mut Ctx, n: usize) -> Vec<i64> {
+    // duplicates are the interesting part: small domains most of the time
+    let dom = *cx.rng.pick(&[1i64, 2, 3, 5, 10, 1000]);
+    let neg = cx.rng.chance(1, 5);
+    (0..n).map(|_| { let v = cx.rng.range(0, dom); if neg && cx.rng.chance(1, 2) { -v } else { v } }).collect()
+}
+fn gen_k(cx: &mut Ctx, n: usize) -> usize {
+    match cx.rng.below(8) {
+        0 => 0,
+        1 => 1,
+        2 => n,
+        3 => n + 1,
+        4 => n.saturating_sub(1),
+        5 => n + 1 + cx.rng.below(5),
+        _ => cx.rng.below(n + 2),
+    }
+}
+fn gen_seed(cx: &mut Ctx) -> u64 {
+    match cx.rng.below(8) {
+        0 => 0,
+        1 => 42,
+        2 => u64::MAX,
+        3 => cx.rng.below(10) as u64,
+        _ => cx.rng.next_u64(),
+    }
+}
+/// random split of `vals` into `m` contiguous (possibly empty) leaves
+fn gen_split(cx: &mut Ctx, vals: &[i64], m: usize) -> Vec<Vec<i64>> {
+    let mut cuts: Vec<usize> = (0..m.saturating_sub(1)).map(|_| cx.rng.below(vals.len() + 1)).collect();
+    cuts.sort();
+    let mut out = vec![];
+    let mut prev = 0;
+    for c in cuts { out.push(vals[prev..c].to_vec()); prev = c; }
+    out.push(vals[prev..].to_vec());
+    out
+}
+/// random binary tree over the given leaf order
+fn gen_tree(cx: &mut Ctx, leaves: &[usize]) -> Shape {
+    if leaves.len() == 1 {
+        return Shape::Leaf(leaves[0], cx.rng.chance(1, 4));
+    }
+    let cut = 1 + cx.rng.below(leaves.len() - 1);
+    let l = gen_tree(cx, &leaves[..cut]);
+    let r = gen_tree(cx, &leaves[cut..]);
+    Shape::Node(Box::new(l), Box::new(r))
+}
+fn left_comb(m: usize) -> Shape {
+    let mut t = Shape::Leaf(0, false);
+    for i in 1..m { t = Shape::Node(Box::new(t), Box::new(Shape::Leaf(i, false))); }
+    t
+}
+/// all binary tree shapes over the leaf sequence
+fn all_trees(leaves: &[usize]) -> Vec<Shape> {
+    if leaves.len() == 1 { return vec![Shape::Leaf(leaves[0], false)]; }
+    let mut out = vec![];
+    for cut in 1..leaves.len() {
+        for l in all_trees(&leaves[..cut]) {
+            for r in all_trees(&leaves[cut..]) {
+                out.push(Shape::Node(Box::new(l.clone()), Box::new(r)));
+            }
+        }
+    }
+    out
+}
+fn permutations(m: usize) -> Vec<Vec<usize>> {
+    fn go(cur: &mut Vec<usize>, used: &mut Vec<bool>, out: &mut Vec<Vec<usize>>) {
+        if cur.len() == used.len() { out.push(cur.clone()); return; }
+        for i in 0..used.len() {
+            if !used[i] { used[i] = true; cur.push(i); go(cur, used, out); cur.pop(); used[i] = false; }
+        }
+    }
+    let mut out = vec![];
+    go(&mut vec![], &mut vec![false; m], &mut out);
+    out
+}
+/// all ways to cut `n` items into `m` contiguous, possibly empty, pieces (as sizes)
+fn compositions(n: usize, m: usize) -> Vec<Vec<usize>> {
+    if m == 1 { return vec![vec![n]]; }
+    let mut out = vec![];
+    for first in 0..=n {
+        for mut rest in compositions(n - first, m - 1) {
+            let mut v = vec![first];
+            v.append(&mut rest);
+            out.push(v);
+        }
+    }
+    out
+}
+fn cut_sizes(vals: &[i64], sizes: &[usize]) -> Vec<Vec<i64>> {
+    let mut out = vec![];
+    let mut p = 0;
+    for s in sizes { out.push(vals[p..p + s].to_vec()); p += s; }
+    out
+}
+fn keyed_rows(cx: &mut Ctx, vals: &[i64]) -> Vec<(i64, i64)> {
+    let nk = *cx.rng.pick(&[1i64, 2, 3, 5]);
+    let skew = cx.rng.chance(1, 3);
+    vals.iter().map(|v| {
+        let k = if skew && cx.rng.chance(2, 3) { 0 } else { cx.rng.range(0, nk - 1) };
+        (k, *v)
+    }).collect()
+}
+fn partition_choices(n: usize) -> Vec<usize> {
+    let mut v = vec![1, 2, 3, 4, n.saturating_sub(1).max(1), n.max(1), n + 1, 7, 13, 64];
+    v.sort();
+    v.dedup();
+    v
+}
 
 pub fn run(cx: &mut Ctx) {
-    cx.notes.push("C14: harness not implemented".to_string());
+    /* (1) corpus: the design-time witness of the known finding and boundary cases */
+    let w: Vec<i64> = (0..20).collect();
+    let wk: Vec<(i64, i64)> = w.iter().map(|v| (v % 2, *v)).collect();
+    for e in ENTRIES {
+        one_pipe(cx, e, 5, 42, &[1, 2, 3, 4, 20, 21], &w, &wk);
+        one_pipe(cx, e, 0, 42, &[1, 3], &w, &wk);
+        one_pipe(cx, e, 20, 42, &[1, 3], &w, &wk);
+        one_pipe(cx, e, 21, 42, &[1, 3], &w, &wk);
+        one_pipe(cx, e, 3, 7, &[1, 2], &[], &[]);
+        one_pipe(cx, e, usize::MAX, u64::MAX, &[1, 3, 64], &w, &wk); // largest k and seed
+    }
+    one_reservoir(cx, usize::MAX, 0, &cut_sizes(&w, &[7, 7, 6]), &left_comb(3));
+    one_reservoir(cx, 5, 42, &[w.clone()], &Shape::Leaf(0, false));
+    one_reservoir(cx, 5, 42, &cut_sizes(&w, &[5, 5, 5, 5]), &left_comb(4));
+    one_reservoir(cx, 5, 42, &cut_sizes(&w, &[7, 7, 6]), &left_comb(3));
+    // systematic ties (same priority and seq in every partition): equal-size leaves of identical values
+    one_reservoir(cx, 2, 1, &cut_sizes(&[1, 2, 3, 1, 2, 3, 1, 2, 3], &[3, 3, 3]), &left_comb(3));
+    one_reservoir(cx, 3, 1, &cut_sizes(&[1, 2, 3, 1, 2, 3], &[3, 3]), &Shape::Node(Box::new(Shape::Leaf(1, false)), Box::new(Shape::Leaf(0, true))));
+
+    /* (2) exhaustive small scope */
+    // (2a) the combiner: every n <= N, every split into <= 3 (possibly empty) leaves, every tree shape over
+    //      every leaf order, every k in 0..=n+1, two seeds; values with duplicates
+    let nmax = cx.budget(4, 7);
+    let mut n_ex = 0usize;
+    for n in 0..=nmax {
+        let vals: Vec<i64> = (0..n as i64).map(|i| (i * 7 + 3) % 3).collect();
+        for m in 1..=3usize {
+            let shapes: Vec<Shape> = permutations(m).iter().flat_map(|p| all_trees(p)).collect();
+            for sizes in compositions(n, m) {
+                let parts = cut_sizes(&vals, &sizes);
+                for sh in &shapes {
+                    for k in 0..=n + 1 {
+                        for seed in [0u64, 42] {
+                            one_reservoir(cx, k, seed, &parts, sh);
+                            n_ex += 1;
+                        }
+                    }
+                }
+            }
+        }
+    }
+    cx.exhaustive_blocks.push(format!("combiner: n <= {nmax} x all splits into <= 3 possibly-empty leaves x all merge trees over all leaf orders x k in 0..=n+1 x seeds {{0,42}} ({n_ex} cases)"));
+    // (2b) the pipelines: every n <= N, every k in 0..=n+1, all four entry points, seq + every partition count 1..=n+2
+    let pmax = cx.budget(6, 12);
+    let mut p_ex = 0usize;
+    for n in 0..=pmax {
+        let vals: Vec<i64> = (0..n as i64).map(|i| (i * 5 + 1) % 4).collect();
+        let rows: Vec<(i64, i64)> = vals.iter().enumerate().map(|(i, v)| ((i as i64 * 3 + 1) % 2, *v)).collect();
+        let parts: Vec<usize> = (1..=n + 2).collect();
+        for k in 0..=n + 1 {
+            for seed in [0u64, 1, 42] {
+                for e in ENTRIES {
+                    one_pipe(cx, e, k, seed, &parts, &vals, &rows);
+                    p_ex += 1;
+                }
+            }
+        }
+    }
+    cx.exhaustive_blocks.push(format!("pipelines: n <= {pmax} x k in 0..=n+1 x seeds {{0,1,42}} x 4 entry points x seq + partitions 1..=n+2 ({p_ex} requests)"));
+
+    /* (3) random: inputs <= 60 with duplicates */
+    let rounds = cx.budget(4000, 80000);
+    for r in 0..rounds {
+        let n = match cx.rng.below(6) { 0 => cx.rng.below(4), 1 => 60, _ => cx.rng.below(61) };
+        let vals = gen_values(cx, n);
+        let k = gen_k(cx, n);
+        let seed = gen_seed(cx);
+        // the combiner on a random split and a random tree over a random leaf order
+        let m = 1 + cx.rng.below(6);
+        let parts = if cx.rng.chance(1, 3) {
+            // equal-size leaves: systematic priority ties between leaves
+            let sz = n / m;
+            if sz == 0 { gen_split(cx, &vals, m) } else {
+                let mut sizes = vec![sz; m];
+                sizes[m - 1] += n - sz * m;
+                cut_sizes(&vals, &sizes)
+            }
+        } else { gen_split(cx, &vals, m) };
+        let mut order: Vec<usize> = (0..parts.len()).collect();
+        if cx.rng.chance(1, 2) {
+            for i in (1..order.len()).rev() { let j = cx.rng.below(i + 1); order.swap(i, j); }
+        }
+        let sh = if cx.rng.chance(1, 3) { left_comb(parts.len()) } else { gen_tree(cx, &order) };
+        one_reservoir(cx, k, seed, &parts, &sh);
+        // one pipeline entry point (rotating), seq + three partition counts
+        let e = ENTRIES[r % 4];
+        let choices = partition_choices(n);
+        let mut ps: Vec<usize> = (0..3).map(|_| *cx.rng.pick(&choices)).collect();
+        ps.sort();
+        ps.dedup();
+        let rows = keyed_rows(cx, &vals);
+        one_pipe(cx, e, k, seed, &ps, &vals, &rows);
+    }
 }
